@@ -250,7 +250,8 @@ Lemma unesc_chunk_inv i a i' : unesc_chunk i = Ok a i' ->
 Proof.
   unfold unesc_chunk. intro H. apply from_utf8_inv in H as [H V].
   unfold take_while1 in H. rewrite (take_while_ext _ _ _ _ _ BASIC_UNESCAPED_ok) in H.
-  apply take_while_inv in H as (S & Ha & Hs & Hl). repeat split; auto. destruct a; [simpl in Hl; lia|discriminate].
+  apply take_while_inv in H as (S & Ha & Hs & Hl). split; [exact S|].
+  split; [destruct a; [simpl in Hl; lia|discriminate]|auto].
 Qed.
 
 Lemma unesc_chunk_fails i : stops basic_unescaped (rest i) -> fails unesc_chunk i.
@@ -266,7 +267,7 @@ Lemma basic_chars_inv i c i' : basic_chars i = Ok c i' ->
   exists t, star basic_char t c /\ splits i t i' /\ utf8_valid_b t = true /\ t <> [].
 Proof.
   rewrite basic_chars_unfold. intro H. apply alt_inv in H as [H | [_ H]].
-  - apply unesc_chunk_inv in H as (S & Hne & Ha & _ & V). exists c. repeat split; auto.
+  - apply unesc_chunk_inv in H as (S & Hne & Ha & _ & V). exists c. split; [|auto].
     apply (star_run basic_unescaped); [|exact Ha]. intros b Hb. left. exists b. auto.
   - apply escaped_sound in H as (e & He & S). destruct (escaped_ascii e c He) as (Ae & t & ->).
     exists (x5c :: t). split; [apply star_one; right; exact He|]. split; [exact S|].
@@ -337,7 +338,7 @@ Proof.
       apply (unesc_chunk_ok i a _ H Hne Ha); [|exact Va]. apply stops_app_quote; [reflexivity|exact Hs]. }
     pose proof (rest_adv _ _ _ H) as R. destruct (IH (adv a i) r Vt R) as (l & Rl & El).
     exists (a :: l). rewrite <- adv_adv. split; [|cbn [concat]; rewrite El; reflexivity].
-    eapply runs_cons; [exact E| |exact Rl]. rewrite R, H, app_length. destruct a; [congruence|simpl; lia].
+    eapply runs_cons; [exact E| |exact Rl]. rewrite R, H, !app_length. destruct a; [congruence|simpl; lia].
   - rewrite <- app_assoc in H. destruct (escaped_ascii e s He) as (Ae & t' & Ee).
     rewrite (utf8_app_ascii e t Ae) in V.
     assert (E : basic_chars i = Ok s (adv e i)).
@@ -345,7 +346,7 @@ Proof.
       apply unesc_chunk_fails. rewrite H, Ee. reflexivity. }
     pose proof (rest_adv _ _ _ H) as R. destruct (IH (adv e i) r V R) as (l & Rl & El).
     exists (s :: l). rewrite <- adv_adv. split; [|cbn [concat]; rewrite El; reflexivity].
-    eapply runs_cons; [exact E| |exact Rl]. rewrite R, H, app_length. rewrite Ee. simpl; lia.
+    eapply runs_cons; [exact E| |exact Rl]. rewrite R, H, !app_length. rewrite Ee. simpl; lia.
 Qed.
 
 Theorem basic_string_sound i v i' : basic_string i = Ok v i' ->
@@ -460,13 +461,15 @@ Lemma key_dispatch_complete i t k r : simple_key_tok t k -> rest i = t ++ r ->
   (unquoted_key_tok t -> stops unquoted_key_char r) -> key_dispatch i = Ok k (adv t i).
 Proof.
   intros Ht H Hr. unfold key_dispatch, QUOTATION_MARK, APOSTROPHE. destruct Ht as [Ht | [Ht | [Ht ->]]].
-  - pose proof Ht as (_ & body & -> & _). rewrite <- app_assoc in H.
-    rewrite (bind_ok _ _ _ _ _ (peek_ok _ _ _ _ (any_ok i x22 _ H))). change (byte_eqb x22 x22) with true. cbv iota.
-    rewrite <- app_assoc in Ht. apply (basic_string_complete i _ k r Ht). rewrite <- !app_assoc. exact H.
-  - pose proof Ht as (_ & body & -> & _). rewrite <- app_assoc in H.
-    rewrite (bind_ok _ _ _ _ _ (peek_ok _ _ _ _ (any_ok i x27 _ H))).
+  - pose proof Ht as (_ & body & E & _).
+    assert (H' : rest i = x22 :: (body ++ [x22]) ++ r) by (rewrite H, E; reflexivity).
+    rewrite (bind_ok _ _ _ _ _ (peek_ok _ _ _ _ (any_ok i x22 _ H'))). change (byte_eqb x22 x22) with true. cbv iota.
+    apply (basic_string_complete i t k r Ht H).
+  - pose proof Ht as (_ & body & E & _).
+    assert (H' : rest i = x27 :: (body ++ [x27]) ++ r) by (rewrite H, E; reflexivity).
+    rewrite (bind_ok _ _ _ _ _ (peek_ok _ _ _ _ (any_ok i x27 _ H'))).
     change (byte_eqb x27 x22) with false. change (byte_eqb x27 x27) with true. cbv iota.
-    rewrite <- app_assoc in Ht. apply (literal_string_complete i _ k r Ht). rewrite <- !app_assoc. exact H.
+    apply (literal_string_complete i t k r Ht H).
   - pose proof Ht as [Hne Ha]. destruct t as [|b t']; [congruence|].
     rewrite (bind_ok _ _ _ _ _ (peek_ok _ _ _ _ (any_ok i b _ H))).
     unfold all in Ha. cbn [forallb] in Ha. apply andb_true_iff in Ha as [Hb _].
